@@ -11,4 +11,10 @@ let dispatch fnum z nat entry (is : int list) (xs : Obj.t list) : Obj.t list res
   | "ivp_func", [flow; hl; vl] -> run_ivp_func fnum (z flow) (z hl) (z vl) xs
   | "event", [flow; hl; vl; np; ncalls] -> run_event fnum (z flow) (z hl) (z vl) (nat np) (nat ncalls) xs
   | "timestamps", [mode; n] -> run_timestamps fnum (z mode) (nat n) xs
+  | "gen_wrap", [which; flow; hl; vl] -> run_gen_wrap fnum (z which) (z flow) (z hl) (z vl) xs
+  | "gen_is_inside", [] -> run_gen_is_inside fnum xs
+  | "gen_ivp", [which; flow; hl; vl] -> run_gen_ivp fnum (z which) (z flow) (z hl) (z vl) xs
+  | "gen_event", [flow; hl; vl; np; ncalls] -> run_gen_event fnum (z flow) (z hl) (z vl) (nat np) (nat ncalls) xs
+  | "gen_request", [] -> run_gen_request fnum xs
+  | "gen_timestamps", [mode; n] -> run_gen_timestamps fnum (z mode) (nat n) xs
   | _ -> Err OtherError
